@@ -2,7 +2,10 @@
 
 package text
 
-import "github.com/tsawler/tabula/graphicsstate"
+import (
+	"github.com/tsawler/tabula/core"
+	"github.com/tsawler/tabula/graphicsstate"
+)
 
 // Add-only exports for the verification harness (built only with -tags verif).
 
@@ -69,4 +72,10 @@ func VerifShownTexts(e *Extractor) []string {
 		out[i] = f.Text
 	}
 	return out
+}
+
+// VerifMergeResources exposes (*Extractor).mergeResources (the resources a Form
+// XObject runs under: its own over those of the stream that draws it).
+func VerifMergeResources(parent, child core.Dict) core.Dict {
+	return NewExtractor().mergeResources(parent, child)
 }
